@@ -18,6 +18,13 @@ open Olla.Model.AnthropicRequest Olla.Spec.C12
     limit. -/
 theorem gen_limits_ok : limitsOk genLimits = true := by decide
 
+/-- Limits of the demanded shape, used by the witnesses and examples so that they do not depend
+    on the regenerated values (a harmless retune must not break them). -/
+def testLimits : Limits :=
+  { temperature := ⟨0, 2000000, -1000000, 3000000⟩, topP := ⟨0, 1000000, -1000000, 3000000⟩,
+    maxTokens := ⟨1, 100000, -1000, 100000⟩, topK := ⟨0, 100000, -1000, 100000⟩,
+    requiresModel := true, requiresMessages := true }
+
 /-- The tool_choice table of the pinned tree, kept as a constant so that the witness below stays
     a theorem after the tree is patched. -/
 def pinnedChoiceTable : ChoiceTable :=
@@ -241,7 +248,7 @@ def choiceNoneWitness : AReq :=
     tool_choice none ("do not call tools") is sent upstream as "auto". -/
 theorem C12_tool_choice_witness :
     choiceTableOk pinnedChoiceTable = false ∧
-    (match translateIn genLimits pinnedChoiceTable pinned choiceNoneWitness with
+    (match translateIn testLimits pinnedChoiceTable pinned choiceNoneWitness with
      | .ok o => o.choice == some (.str "auto") && !choicePreserved choiceNoneWitness o
      | .error _ => false) = true := by
   decide
@@ -384,6 +391,96 @@ theorem C12_valid_accepted (lim : Limits) (tbl : ChoiceTable) (hE : choiceErrors
         have hm : row ∈ errorRows := by simpa using this
         simp at h8
         exact absurd hm h8
+
+
+/-- Unpacked `Range.contains` facts for a range with a hard lower end `lo` (above the scan's lower
+    end) and either no upper end or an upper end `≥ top`. -/
+private theorem range_lo (rg : Range) (x : Int) (hlo : rg.scanMin < rg.lo) (hx : x < rg.lo) :
+    rg.contains x = false := by
+  unfold Range.contains
+  have h1 : (rg.lo == rg.scanMin) = false := by
+    simp only [beq_eq_false_iff_ne, ne_eq]; omega
+  have h2 : decide (rg.lo ≤ x) = false := by simp; omega
+  simp [h1, h2]
+
+private theorem range_in (rg : Range) (x : Int) (hx : rg.lo ≤ x) (hh : rg.hi = rg.scanMax ∨ x ≤ rg.hi)
+    (hle : rg.lo ≤ rg.hi) : rg.contains x = true := by
+  unfold Range.contains
+  have h2 : decide (rg.lo ≤ x) = true := by simp; omega
+  have h3 : decide (rg.lo ≤ rg.hi) = true := by simp; omega
+  rcases hh with hh | hh
+  · have h5 : decide (rg.lo ≤ rg.scanMax) = true := by simp; omega
+    simp [h2, hh, h5]
+  · have h4 : decide (x ≤ rg.hi) = true := by simp; omega
+    simp [h2, h3, h4]
+
+/-- **Limits are sound**: with limits of the demanded shape (`limitsOk`, an obligation on the
+    regenerated values), a request the property certainly calls invalid fails the field checks … -/
+theorem C12_limits_reject (lim : Limits) (hl : limitsOk lim = true) (r : AReq)
+    (hb : fieldsCertainlyBad r = true) : fieldsOk lim r = false := by
+  unfold limitsOk at hl
+  simp only [Bool.and_eq_true, beq_iff_eq, decide_eq_true_eq] at hl
+  obtain ⟨⟨⟨⟨⟨⟨⟨⟨⟨⟨⟨⟨⟨⟨⟨hm, hms⟩, t0⟩, t1⟩, t2⟩, p0⟩, p1⟩, p2⟩, m0⟩, m1⟩, m2⟩, m3⟩, k0⟩, k1⟩, k2⟩, k3⟩ := hl
+  unfold fieldsCertainlyBad at hb
+  simp only [Bool.or_eq_true, beq_iff_eq, decide_eq_true_eq] at hb
+  unfold fieldsOk optOk
+  rcases hb with ((((hb | hb) | hb) | hb) | hb) | hb
+  · simp [hm, hb]
+  · simp [hms, hb]
+  · have := range_lo lim.maxTokens r.maxTokens (by omega) (by omega)
+    simp [this]
+  · cases ht : r.temperature with
+    | none => simp [ht] at hb
+    | some t =>
+      simp only [ht, decide_eq_true_eq] at hb
+      have := range_lo lim.temperature t.micros (by omega) (by omega)
+      simp [this]
+  · cases ht : r.topP with
+    | none => simp [ht] at hb
+    | some t =>
+      simp only [ht, decide_eq_true_eq] at hb
+      have := range_lo lim.topP t.micros (by omega) (by omega)
+      simp [this]
+  · cases ht : r.topK with
+    | none => simp [ht] at hb
+    | some k =>
+      simp only [ht, decide_eq_true_eq] at hb
+      have := range_lo lim.topK k (by omega) (by omega)
+      simp [this]
+
+/-- … and a request whose fields the property certainly calls valid passes them. -/
+theorem C12_limits_accept (lim : Limits) (hl : limitsOk lim = true) (r : AReq)
+    (hg : fieldsCertainlyGood r = true) : fieldsOk lim r = true := by
+  unfold limitsOk at hl
+  simp only [Bool.and_eq_true, beq_iff_eq, decide_eq_true_eq] at hl
+  obtain ⟨⟨⟨⟨⟨⟨⟨⟨⟨⟨⟨⟨⟨⟨⟨hm, hms⟩, t0⟩, t1⟩, t2⟩, p0⟩, p1⟩, p2⟩, m0⟩, m1⟩, m2⟩, m3⟩, k0⟩, k1⟩, k2⟩, k3⟩ := hl
+  unfold fieldsCertainlyGood at hg
+  simp only [Bool.and_eq_true, bne_iff_ne, ne_eq, Bool.not_eq_true', decide_eq_true_eq] at hg
+  obtain ⟨⟨⟨⟨⟨g1, g2⟩, g3⟩, g4⟩, g5⟩, g6⟩ := hg
+  have hmax := range_in lim.maxTokens r.maxTokens (by omega) (Or.inl m1) m3
+  have htemp : optOk lim.temperature (r.temperature.map (·.micros)) = true := by
+    cases ht : r.temperature with
+    | none => simp [optOk]
+    | some t =>
+      simp only [ht, Bool.and_eq_true, decide_eq_true_eq] at g4
+      simp only [Option.map, optOk]
+      exact range_in lim.temperature t.micros (by omega) (Or.inr (by omega)) (by omega)
+  have htopp : optOk lim.topP (r.topP.map (·.micros)) = true := by
+    cases ht : r.topP with
+    | none => simp [optOk]
+    | some t =>
+      simp only [ht, Bool.and_eq_true, decide_eq_true_eq] at g5
+      simp only [Option.map, optOk]
+      exact range_in lim.topP t.micros (by omega) (Or.inr (by omega)) (by omega)
+  have htopk : optOk lim.topK r.topK = true := by
+    cases ht : r.topK with
+    | none => simp [optOk]
+    | some k =>
+      simp only [ht, decide_eq_true_eq] at g6
+      simp only [optOk]
+      exact range_in lim.topK k (by omega) (Or.inl k1) k3
+  unfold fieldsOk
+  simp [g1, g2, hmax, htemp, htopp, htopk]
 
 theorem C12_invalid_rejected_gen (cfg : Cfg) (r : AReq) (h : valid r = false) : ∃ e, translate cfg r = .error e :=
   C12_invalid_rejected genLimits _ gen_choice_errors cfg r h
@@ -728,12 +825,13 @@ def orderWitness : AReq :=
     well-roled, yet the remark is sent BEFORE the tool result (which also separates the tool
     message from the assistant message that called it).  The patched variant keeps the order. -/
 theorem C12_order_witness :
-    valid orderWitness = true ∧ wellRoled orderWitness = true ∧ asstTextFirst orderWitness = true ∧
-    (match translate pinned orderWitness with
+    limitsOk testLimits = true ∧ validIn testLimits errorRows orderWitness = true ∧
+    wellRoled orderWitness = true ∧ asstTextFirst orderWitness = true ∧
+    (match translateIn testLimits pinnedChoiceTable pinned orderWitness with
      | .ok o => o.messages == [.plain "user" "q", .assistant none [⟨"t1", "f", "{\"a\":1}"⟩],
                                .plain "user" "thanks", .tool "t1" (.str "42")] && atomsO o != atomsA orderWitness
      | .error _ => false) = true ∧
-    (match translate fixed orderWitness with
+    (match translateIn testLimits pinnedChoiceTable fixed orderWitness with
      | .ok o => atomsO o == atomsA orderWitness
      | .error _ => false) = true := by
   decide
@@ -746,8 +844,9 @@ def asstOrderWitness : AReq :=
 /-- Why `asstTextFirst` stays a hypothesis even for the patched tree: the OpenAI message puts the
     text in `content` and the call in `tool_calls`; read back, the text comes first. -/
 theorem C12_assistant_order_witness :
-    valid asstOrderWitness = true ∧ wellRoled asstOrderWitness = true ∧ asstTextFirst asstOrderWitness = false ∧
-    (match translate fixed asstOrderWitness with
+    validIn testLimits errorRows asstOrderWitness = true ∧ wellRoled asstOrderWitness = true ∧
+    asstTextFirst asstOrderWitness = false ∧
+    (match translateIn testLimits pinnedChoiceTable fixed asstOrderWitness with
      | .ok o => atomsO o != atomsA asstOrderWitness
      | .error _ => false) = true := by
   decide
@@ -765,17 +864,20 @@ def sampleReq : AReq :=
     tools := [⟨"f", "does f", "{\"type\":\"object\"}"⟩, ⟨"g", "", "null"⟩],
     choice := .obj "tool" (some "f") }
 
-example : valid sampleReq = true ∧ wellRoled sampleReq = true ∧ userTextFirst sampleReq = true ∧
-    asstTextFirst sampleReq = true := by decide
-example : (match translate pinned sampleReq with
+private def tr (r : AReq) : Except Err OReq := translateIn testLimits pinnedChoiceTable pinned r
+private def errIs (x : Except Err OReq) (e : Err) : Bool := match x with | .error e' => e' == e | .ok _ => false
+
+example : validIn testLimits errorRows sampleReq = true ∧ wellRoled sampleReq = true ∧ userTextFirst sampleReq = true ∧
+    asstTextFirst sampleReq = true ∧ fieldsCertainlyGood sampleReq = true := by decide
+example : (match tr sampleReq with
     | .ok o => atomsO o == atomsA sampleReq && scalarsPreserved sampleReq o && toolsPreserved sampleReq o &&
                choicePreserved sampleReq o && o.choice == some (.function "f") && o.messages.length == 6
     | .error _ => false) = true := by decide
-private def errIs (x : Except Err OReq) (e : Err) : Bool := match x with | .error e' => e' == e | .ok _ => false
-example : errIs (translate pinned { sampleReq with maxTokens := 0 }) (.validation "max_tokens") = true := by decide
-example : errIs (translate pinned { sampleReq with temperature := some ⟨"2.5", 2500000⟩ }) (.validation "temperature") = true := by decide
-example : errIs (translate pinned { sampleReq with messages := [⟨"user", .bad⟩] }) .content = true := by decide
-example : errIs (translate pinned { sampleReq with choice := .obj "tool" none }) .toolChoice = true := by decide
-example : valid { sampleReq with choice := .obj "tool" none } = false := by decide
+example : errIs (tr { sampleReq with maxTokens := 0 }) (.validation "max_tokens") = true := by decide
+example : errIs (tr { sampleReq with temperature := some ⟨"2.5", 2500000⟩ }) (.validation "temperature") = true := by decide
+example : errIs (tr { sampleReq with messages := [⟨"user", .bad⟩] }) .content = true := by decide
+example : errIs (tr { sampleReq with choice := .obj "tool" none }) .toolChoice = true := by decide
+example : validIn testLimits errorRows { sampleReq with choice := .obj "tool" none } = false := by decide
+example : fieldsCertainlyBad { sampleReq with maxTokens := 0 } = true := by decide
 
 end Olla.Props.C12
